@@ -69,11 +69,12 @@ pub fn hist_trigger_matches(trigger: &str, cfg: &Cfg, t: &Tree, op: &Op) -> bool
     }
 }
 
+/// trigger names implemented by hist_trigger_matches
+pub const HIST_TRIGGERS: [&str; 1] = ["overlay:remove_file:target-is-empty-directory"];
+
 pub fn hist_excluder(prop: &str) -> Box<crate::hist::Excluder> {
-    let open: Vec<&'static str> = open_for(prop)
-        .into_iter()
-        .map(|f| &*Box::leak(f.trigger.into_boxed_str()))
-        .collect();
+    let listed: Vec<String> = open_for(prop).into_iter().map(|f| f.trigger).collect();
+    let open: Vec<&'static str> = HIST_TRIGGERS.iter().copied().filter(|t| listed.iter().any(|l| l == t)).collect();
     Box::new(move |cfg, t, op| {
         for trig in &open {
             if hist_trigger_matches(trig, cfg, t, op) {
